@@ -387,7 +387,7 @@ def exec_step(ctx, step, host=None):
             rec["result"] = ["handle", type(res).__name__]
             if spec.snap:
                 ctx.watch("h:" + step["id"], res)
-            if spec.snap or hasattr(res, "_verif_canon"):
+            if spec.snap or hasattr(res, "_verif_canon") or spec.handle == "value":
                 rec["result"] = ["handle", type(res).__name__, C.canon(res)]
         else:
             rec["result"] = C.canon(res)
